@@ -25,6 +25,8 @@ func register(id string, f func(*Run), undecided string) {
 	notDecided[id] = undecided
 }
 
+var probeHook func(*World)
+
 func main() {
 	prop := flag.String("prop", "", "property id (C01..C20) or 'all'")
 	tier := flag.String("tier", os.Getenv("VERIF_TIER"), "quick|thorough")
@@ -90,6 +92,10 @@ func main() {
 		worlds[i] = w
 	}
 
+	if probeHook != nil {
+		probeHook(worlds[0])
+		return
+	}
 	loadTime := time.Since(procStart)
 	for _, id := range ids {
 		start := time.Now().Add(-loadTime)
